@@ -277,7 +277,9 @@ def insert_text(node: AbbreviationNode, text: str):
             node.value[-1] += text
         else:
             node.value.append(text)
-    else:
+    elif text:
+        # NB: nothing to insert (`li*` without text to wrap): node stays empty,
+        # an empty string as value would make it look like a node with content
         node.value = [text]
 
 
